@@ -1,9 +1,11 @@
 package c20
 
 // Black-box companion of C20 (campaign bb_colstore): column-store measurements created through the real DDL on a real
-// ts-server, generated rows written through /write, generated conditions; the answer of every query must equal the
-// brute-force evaluation of the condition over the written rows, before and after the forced flush (memtable rows have
-// no index in front of them, flushed rows sit behind the primary-key sparse index and the declared skip indexes).
+// ts-server, generated rows written through /write in several requests and forced flushes (one file per flush),
+// generated conditions; the answer of every query (select *, select count(z), select <field>) must equal the
+// brute-force evaluation of the condition over the written rows: flushed rows sit behind the primary-key sparse index
+// and the declared skip indexes, and whatever the indexes let through still has to pass the row filter, so a missing
+// row and a surplus row are both violations. The same queries are asked again after further files were added.
 //
 // Layout facts of the pinned tree the check relies on (engine/immutable/colstore_tssp_writer.go): one flush of one
 // measurement gives one file; inside the file the rows are grouped by primary-key tuple, ONE FRAGMENT PER DISTINCT
@@ -466,9 +468,14 @@ func (cs *bbCase) knownClass(n *bbNode) string {
 	if cls != "" {
 		return cls
 	}
+	// R2: with three key columns in use (the condition references the third one) and an integer middle key the scan
+	// rewrites the middle key values inside the file's cached index record (Range.turnOpenRangeIntoClosed, value +-1 per
+	// scan). The library check needs the first key referenced to see a wrong pruning inside that one scan; on a server
+	// the rewritten record stays cached, so ANY such condition poisons every later query on the file (observed: rows
+	// written with i0 = 3 come back as i0 = 9 and "i0 < 5" loses fragments): the whole shape is left out.
 	f := cs.feat(n)
-	if len(cs.Keys) == 3 && f.maxKey == 2 && f.cols[cs.Keys[0]] && cs.colType(cs.Keys[1]) == "int" {
-		return "known:C20-R2(three keys used, integer middle key)"
+	if len(cs.Keys) == 3 && f.maxKey == 2 && cs.colType(cs.Keys[1]) == "int" {
+		return "known:C20-R2(third key column referenced, integer middle key: cached index record rewritten)"
 	}
 	return ""
 }
@@ -700,12 +707,12 @@ func (q *bbQuery) rowFilterDiffers() bool {
 // ---------------------------------------------------------------- server handling (one server per test process)
 
 var bbState struct {
-	mu       sync.Mutex
-	srv      *bb.Server
-	seq      int
-	kindOnce sync.Once
-	kindDone chan struct{}
-	kinds    map[string]string // skip-index kind -> "" (usable) | reason it cannot be exercised
+	mu         sync.Mutex
+	srv        *bb.Server
+	seq        int
+	kindOnce   sync.Once
+	kindDone   chan struct{}
+	kinds      map[string]string // skip-index kind -> "" (usable) | reason it cannot be exercised
 	memVisible map[*bb.Server]bool
 }
 
@@ -883,18 +890,19 @@ type bbViolation struct{ msg string }
 func (v *bbViolation) Error() string { return v.msg }
 
 type bbQueryStat struct {
-	phase      string // memtable | files+memtable | flushed
+	phase      string // flushed-intermediate | flushed-final ; memtable | files+memtable only on a tree that serves unflushed rows
 	nontrivial bool
 	matched    int
 	total      int
 }
 
 type bbRunInfo struct {
-	stats     []bbQueryStat
-	maxFrags  int // largest number of fragments (distinct key tuples) in one flushed file
-	files     int
-	indexUsed bool
-	ddlNote   string
+	memVisible bool
+	stats      []bbQueryStat
+	maxFrags   int // largest number of fragments (distinct key tuples) in one flushed file
+	files      int
+	indexUsed  bool
+	ddlNote    string
 }
 
 func bbCanon(typ string, x any) (string, error) {
@@ -1080,6 +1088,7 @@ func (cs *bbCase) run(srv *bb.Server, mst string, info *bbRunInfo) error {
 	pos := 0
 	unflushed := 0
 	memVisible := bbMemVisible(srv)
+	info.memVisible = memVisible
 	endFile := func() {
 		frags := map[string]bool{}
 		for _, row := range written[len(written)-unflushed:] {
@@ -1315,7 +1324,7 @@ func (g *bbGen) schema() {
 
 func (g *bbGen) index() {
 	t, cs, c := g.t, g.cs, g.c
-	kind := rapid.SampledFrom([]string{"", "", "", "bloomfilter", "bloomfilter", "bloomfilter", "minmax", "set", "text", "bloomfilter_ip"}).Draw(t, "skipindex")
+	kind := rapid.SampledFrom([]string{"", "", "", "bloomfilter", "bloomfilter", "bloomfilter", "minmax", "set", "text", "text", "bloomfilter_ip"}).Draw(t, "skipindex")
 	if kind == "" {
 		c.Class("skipindex=none")
 		return
@@ -1541,8 +1550,8 @@ func (g *bbGen) query() bbQuery {
 				if kind == "tag" {
 					kind = "string"
 				}
-				n = &bbNode{Col: cs.Keys[0], Cmp: "!=", Lit: p[0], LitKind: kind}
-				if cs.knownClass(n) == "" {
+				n = &bbNode{Col: cs.Keys[0], Cmp: "=", Lit: p[0], LitKind: kind}
+				if cs.knownClass(n) == "" && cs.findingClass(n) == "" {
 					q.Cond = n
 				}
 				break
@@ -1604,6 +1613,9 @@ func (cs *bbCase) classes(c *ev.Case, info *bbRunInfo) {
 		c.Class("rows=60..149")
 	default:
 		c.Class("rows>=150")
+	}
+	if !info.memVisible {
+		c.Class("memtable-phase-NOT-EXERCISED (unflushed column-store rows are invisible to conditioned queries on this tree)")
 	}
 	c.Class(fmt.Sprintf("files=%d", info.files))
 	switch {
